@@ -24,6 +24,8 @@ type HOp struct {
 	Got     model.Val // get: the value read (Del = not found)
 	GotKeys []string
 	Garbage string // get: the bytes matched no complete written content
+	G       int    // managed goroutine that executed the operation
+	Wild    bool   // the result is excused (known finding): any result is accepted for this read
 }
 
 func (o HOp) String() string {
@@ -103,6 +105,10 @@ func (s linState) step(o HOp) bool {
 	case "set", "del":
 		return s.m.Write(s.tx(o.Slot), o.Key, o.Val) == o.Err
 	case "get":
+		if o.Wild {
+			_, e := s.m.Read(s.tx(o.Slot), o.Key)
+			return e == model.OK || o.Err == e
+		}
 		if o.Garbage != "" {
 			return false
 		}
@@ -120,6 +126,10 @@ func (s linState) step(o HOp) bool {
 		}
 		return false
 	case "keys":
+		if o.Wild {
+			_, _, e := s.m.Keys(s.tx(o.Slot))
+			return e == model.OK || o.Err == e
+		}
 		must, may, e := s.m.Keys(s.tx(o.Slot))
 		if e != model.OK || o.Err != model.OK {
 			return o.Err == e
